@@ -27,9 +27,21 @@ mkdir -p $V/.cache/target
 export CARGO_NET_OFFLINE=true
 export CARGO_TARGET_DIR=$V/.cache/target
 if ! (cd "$S/harness" && cargo build --release --offline -q 2> "$S/build.log"); then
-  cat "$S/build.log" >&2
-  echo "TOOL-ERROR: instrumented copy of $REPO does not build" >&2
-  exit 2
+  # the appended vf_observer_count() accessors name private fields of the subjects / connectables; when a refactoring renamed
+  # them, build once more WITHOUT the accessors (observer counts are then reported as unknown = -1 and not compared)
+  if [ -z "$ARX_NO_ACCESSORS" ]; then
+    echo "note: instrumented build failed, retrying without the observer-count accessors" >&2
+    ARX_NO_ACCESSORS=1 sh $V/tools/instrument.sh "$REPO" "$S/inst" >&2
+    if ! (cd "$S/harness" && RUSTFLAGS="--cfg no_count --check-cfg cfg(no_count)" cargo build --release --offline -q 2> "$S/build2.log"); then
+      cat "$S/build.log" "$S/build2.log" >&2
+      echo "TOOL-ERROR: instrumented copy of $REPO does not build" >&2
+      exit 2
+    fi
+  else
+    cat "$S/build.log" >&2
+    echo "TOOL-ERROR: instrumented copy of $REPO does not build" >&2
+    exit 2
+  fi
 fi
 mkdir -p $V/.cache/bin/$key
 cp $V/.cache/target/release/harness "$bin"
